@@ -227,3 +227,21 @@ def soup_text(rnd: random.Random) -> str:
            "dungeon_mode", "clear", "reset", "init", "dungeon_result", "adventure_log", "message_SwitchTalk", "debug", "edit",
            "variation", "TRUE", "FALSE", "&<<", "&", "^", "!=", "<=", ">=", "{english='x'}", "§", "//c\n", "/*c*/", "\\\n", "\n", " "]
     return " ".join(rnd.choice(lex) for _ in range(rnd.randint(1, 40)))
+
+
+def has_macro_call(ss):
+    for s in ss:
+        k = s[0]
+        if k == "macro":
+            return True
+        if k == "if" and (any(has_macro_call(b) for _, _, b in s[1]) or (s[2] and has_macro_call(s[2]))):
+            return True
+        if k == "switch" and any(has_macro_call(b) for _, b in s[2]):
+            return True
+        if k == "forever" and has_macro_call(s[1]):
+            return True
+        if k == "while" and has_macro_call(s[3]):
+            return True
+        if k == "for" and has_macro_call(s[4]):
+            return True
+    return False
